@@ -246,6 +246,16 @@ func Run(r *core.Run) {
 		{"three-keys", []vmSpec{{"k1", jw, keys.New("Ed25519", 204), false, []did.VerificationRelationship{A, CI}}, {"k2", jw, keys.New("P-256", 204), false, []did.VerificationRelationship{KA}},
 			{"k3", jw, keys.New("secp256k1", 204), false, []did.VerificationRelationship{AS, CD}}}, 2, 2},
 		{"services-only", nil, 2, 1},
+		// ids that an order other than the plain string order would tie or swap: numbers with leading zeros, a bare name next to
+		// name0, letter case, a prefix, digits against letters
+		{"ids-leading-zeros", []vmSpec{{"key1", jw, keys.New("Ed25519", 205), false, []did.VerificationRelationship{A}}, {"key01", jw, keys.New("Ed25519", 206), false, []did.VerificationRelationship{A}},
+			{"key001", jw, keys.New("Ed25519", 207), false, []did.VerificationRelationship{A}}}, 0, 0},
+		{"ids-name-and-name0", []vmSpec{{"key", jw, keys.New("P-256", 205), false, []did.VerificationRelationship{A}}, {"key0", jw, keys.New("P-256", 206), false, []did.VerificationRelationship{AS}},
+			{"key00", jw, keys.New("P-256", 207), false, []did.VerificationRelationship{KA}}}, 0, 0},
+		{"ids-letter-case", []vmSpec{{"Key", jw, keys.New("Ed25519", 208), false, []did.VerificationRelationship{A}}, {"key", jw, keys.New("P-256", 208), false, []did.VerificationRelationship{AS}},
+			{"KEY", jw, keys.New("secp256k1", 208), false, []did.VerificationRelationship{KA}}}, 0, 0},
+		{"ids-numeric", []vmSpec{{"10", jw, keys.New("Ed25519", 209), false, []did.VerificationRelationship{A}}, {"9", jw, keys.New("P-256", 209), false, []did.VerificationRelationship{AS}},
+			{"09", jw, keys.New("P-256", 211), false, []did.VerificationRelationship{KA}}, {"-", jw, keys.New("P-256", 212), false, []did.VerificationRelationship{A}}}, 0, 0},
 	}
 	upd, rec := keys.New("Ed25519", 210), keys.New("P-256", 210)
 	opts := []vdrapi.DIDMethodOption{vdrapi.WithOption(sidetreelongform.UpdatePublicKeyOpt, pub(upd)), vdrapi.WithOption(sidetreelongform.RecoveryPublicKeyOpt, pub(rec))}
